@@ -112,19 +112,12 @@ class SettingHarness(Harness):
         self.params = {"cfg": cfg, "id": sid}
 
     def _run(self, M, default, crc):
-        key = M.prefix
-        if not hasattr(self, "_cache"):
-            self._cache = {}
-        if key not in self._cache:
-            inv, fake = models.make(M, self.cfg, crc=crc)
-            info = range(0x88b8, 0x88b8 + 0x21) if self.cfg["family"] == "ET" else range(0x7531, 0x7531 + 0x28)
-            self._cache[key] = (inv, fake, {a: v for a, v in fake.regs.items() if a in info}, dict(inv._settings))
-        inv, fake, base, settings = self._cache[key]
-        fake.regs = dict(base)
+        inv, fake = models.make(M, self.cfg, crc=crc)
+        info = range(0x88b8, 0x88b8 + 0x21) if self.cfg["family"] == "ET" else range(0x7531, 0x7531 + 0x28)
+        fake.regs = {a: v for a, v in fake.regs.items() if a in info}
         fake.default = default
         fake.log.clear()
         fake.raw_log.clear()
-        inv._settings = dict(settings)
         if self.cfg["family"] == "ES":
             # read_settings_data() decodes the whole table in one go: only the bytes this setting reads are made
             # symbolic, the rest is concrete filler (the other settings are explored by their own harness instances)
